@@ -146,6 +146,30 @@ def run(ctx, chk):
         ok = "rawdb::layout::Layout::insert_hole" not in r
         chk.oblige("B05.3c %s does not reach insert_hole (freed extent goes to pending_holes)" % f, ok,
                    key="B05.3c|reach|%s" % f, msg="a freed extent must not become reusable before the next flush")
+    # B05.3d who may write the layout's maps (a freed extent must not reach the reusable-hole maps by another door)
+    writers = {
+        "start_to_hole": {"rawdb::layout::Layout::insert_hole", "rawdb::layout::Layout::remove_hole"},
+        "hole_to_starts": {"rawdb::layout::Layout::insert_hole", "rawdb::layout::Layout::remove_hole"},
+        "pending_holes": {"rawdb::layout::Layout::remove_region", "rawdb::layout::Layout::promote_pending_holes"},
+        "start_to_reserved": {"rawdb::layout::Layout::reserve", "rawdb::layout::Layout::take_reserved"},
+        "start_to_region": {"rawdb::layout::Layout::insert_region", "rawdb::layout::Layout::remove_region"},
+    }
+    ctor = LAYOUT_FROM
+    for field, allowed in sorted(writers.items()):
+        offenders = []
+        n = 0
+        for bid, body in sorted(P.bodies.items()):
+            if body.krate != "rawdb":
+                continue
+            if anchors.mut_field(body, field) and "rawdb::layout::Layout" in " ".join(l["ty"] for l in body.locals[:body.arg_count + 2]):
+                n += 1
+                root = body.root
+                if root not in allowed and bid not in allowed and root != ctor and not root.endswith("Default>::default"):
+                    offenders.append(bid)
+        chk.oblige("B05.3d only %s write Layout.%s [%d writer bodies]" % (sorted(a.split("::")[-1] for a in allowed), field, n),
+                   not offenders and n >= 1, detail={"offenders": offenders}, key="B05.3d|field-writers|%s" % field,
+                   msg="the layout's maps are changed only through their designated functions (a freed extent must go "
+                       "through pending_holes and promotion)")
     # B05.7 pending holes count as occupied space for every placement decision, and are never allocatable
     pend_readers = _field_readers(ctx, "rawdb::layout::Layout", "pending_holes")
     for fn in ("rawdb::layout::Layout::len", "rawdb::layout::Layout::is_last_anything"):
